@@ -87,8 +87,8 @@ var openRelax = []struct {
 }{}
 
 func c04(r *mon.Run) {
-	maxLen := tierPick(r, 4, 6)
-	r.Rule = "every sequence of 1..L lexemes over a 26-lexeme alphabet covering every token type (L=4 quick, 6 thorough: 321 272 406 sequences; + mutated grammatical spellings up to 36 tokens), joined by single spaces, is given to Compile and to the ABNF recogniser ref.Accepts; " +
+	maxLen := tierPick(r, 5, 6)
+	r.Rule = "every sequence of 1..L lexemes over a 26-lexeme alphabet covering every token type (L=5 quick: 12 356 630 sequences, L=6 thorough: 321 272 406; + grammatical spellings of random trees up to 36 tokens and their mutations: one token inserted / deleted / replaced / swapped, a token span wrapped in parentheses or brackets, a matching pair removed), joined by single spaces, is given to Compile and to the ABNF recogniser ref.Accepts; " +
 		"every grammatical sequence additionally in its no-space and mixed-whitespace spelling (accept/reject and AST must not change). Non-trivial = distinct grammatical sequences + distinct ungrammatical sequences at edit distance 1 from a grammatical one."
 	r.Exhaustive = true
 	r.Floor = 1000
@@ -184,14 +184,56 @@ func c04Random(r *mon.Run) {
 			g.IllTyped = 0
 			tree := g.Expr(0, gen.WAny)
 			lex := gen.Tokens(tree, gen.Min)
-			if len(lex) > 36 || len(lex) < 2 {
+			if len(lex) > 34 || len(lex) < 2 {
 				t.Count("skipped: spelling too long or too short for the recogniser window")
 				return
 			}
 			var rec ref.Recognizer
-			mut := i % 5 // 0: unmutated, 1 insert, 2 delete, 3 replace, 4 swap
+			mut := i % 8 // 0: unmutated, 1 insert, 2 delete, 3 replace, 4 swap, 5 wrap a span in ( ), 6 wrap a span in [ ], 7 remove a matching pair
 			lex = append([]string(nil), lex...)
 			switch mut {
+			case 5, 6:
+				a := rng.Intn(len(lex))
+				b := a + 1 + rng.Intn(3)
+				if b > len(lex) {
+					b = len(lex)
+				}
+				open, close := "(", ")"
+				if mut == 6 {
+					open, close = "[", "]"
+				}
+				w := append([]string{}, lex[:a]...)
+				w = append(w, open)
+				w = append(w, lex[a:b]...)
+				w = append(w, close)
+				lex = append(w, lex[b:]...)
+			case 7:
+				// remove a ( … ) or [ … ] pair (the first opener at or after a random position and its partner)
+				start := rng.Intn(len(lex))
+				for k := 0; k < len(lex); k++ {
+					a := (start + k) % len(lex)
+					if lex[a] != "(" && lex[a] != "[" {
+						continue
+					}
+					depth, bpos := 0, -1
+					for q := a; q < len(lex); q++ {
+						if lex[q] == "(" || lex[q] == "[" || lex[q] == "[?" || lex[q] == "{" {
+							depth++
+						} else if lex[q] == ")" || lex[q] == "]" || lex[q] == "}" {
+							depth--
+							if depth == 0 {
+								bpos = q
+								break
+							}
+						}
+					}
+					if bpos > a {
+						w := append([]string{}, lex[:a]...)
+						w = append(w, lex[a+1:bpos]...)
+						lex = append(w, lex[bpos+1:]...)
+					}
+					break
+				}
 			case 1:
 				p := rng.Intn(len(lex) + 1)
 				lex = append(lex[:p], append([]string{gen.Pick(rng, c04Alphabet)}, lex[p:]...)...)
@@ -226,7 +268,7 @@ func c04Random(r *mon.Run) {
 				t.Count("ungrammatical at edit distance 1 from a grammatical spelling")
 			}
 			if i%5003 == 0 {
-				t.Sample(map[string]interface{}{"sequence": key, "grammatical": gram, "compiled": accepted, "mutation": []string{"none", "insert", "delete", "replace", "swap"}[mut]})
+				t.Sample(map[string]interface{}{"sequence": key, "grammatical": gram, "compiled": accepted, "mutation": []string{"none", "insert", "delete", "replace", "swap", "wrap()", "wrap[]", "unpair"}[mut]})
 			}
 		}}
 	r.Exec(w)
